@@ -1198,3 +1198,48 @@ def r_box32_coordinates_not_narrowed(ck, P, rid='C19-R16'):
         raise AnalysisBroken('%s: only %d loads of pixman_box32_t fields seen' % (rid, users32))
     if n == 0:
         raise AnalysisBroken('%s: the 32-to-16-bit conversion (positive example) was not seen' % rid)
+
+
+def r_dst_operator_never_dispatched(ck, P, rid='C02-R31'):
+    """T-GRD: the operator DST (keep the destination) is implemented by a no-op routine of one implementation; when that routine is
+    disabled (PIXMAN_DISABLE=wholeops) a lookup of DST falls through to the general path, which fetches the destination and stores it
+    back - not the identity for an indexed or otherwise lossy format.  The entry point therefore never looks DST up."""
+    R = ck.rule(rid, 'in pixman_image_composite32 the lookup of a composite routine is reached only when the (optimised) operator has been compared with PIXMAN_OP_DST and found different: under PIXMAN_DISABLE=wholeops DST onto a c8 destination with a non-invertible palette otherwise goes through fetch and store of the general path and changes the indices (0001 0004 0007 ... becomes 0000 0000 0000 ...), while every other configuration leaves the destination alone', floor=1)
+    DST = P.enum('pixman_op_t').get('PIXMAN_OP_DST')
+    if DST is None:
+        raise AnalysisBroken('%s: PIXMAN_OP_DST not found' % rid)
+    n = 0
+    for f in common.public_api(P):
+        for c in f.calls():
+            if not (isinstance(c.callee, str) and c.callee == '_pixman_implementation_lookup_composite'):
+                continue
+            V = f.strip_casts(c.a[1])
+            y = f.v(V) if V[0] == 'v' else None
+            # the operator looked up: the optimiser's result, directly or through the field of the local request structure it was stored in
+            vpath = f.path(y.a[0]) if y is not None and y.op == 'load' else None
+            if y is None or not (y.op == 'call' or (vpath is not None and vpath[0][0] == 'alloca')):
+                continue
+            def same(o):
+                o = f.strip_casts(o)
+                if list(o) == list(V):
+                    return True
+                q = f.v(o) if o[0] == 'v' else None
+                return vpath is not None and q is not None and q.op == 'load' and f.path(q.a[0]) == vpath
+            n += 1; ck.saw(f)
+            ok = False
+            for t, s in f.guard_edges(c.bb.id):
+                if t.op != 'br' or not t.a:
+                    continue
+                cc, p, ops = f.cond(t.a[0])
+                if cc is None or cc.op != 'icmp' or p not in ('eq', 'ne') or len(ops) != 2:
+                    continue
+                eff = p if t.d['succ'][0] == s else f.INV.get(p, p)
+                if eff == 'ne' and any(same(o) for o in ops) and any(o[0] == 'c' and int(o[1]) == DST for o in ops):
+                    ok = True
+            where = '%s: lookup at %s' % (f.name, c.loc())
+            if ok:
+                ck.ok(R, where, 'never for DST')
+            else:
+                ck.violation(R, f.name, 'DST looked up like any operator', '%s looks a composite routine up for whatever operator the optimiser returned (%s), DST included: with the whole-operation no-op routine disabled the general path fetches the destination and stores it back, which is not the identity for indexed (and other lossy) destination formats - the destination differs from what every other implementation leaves' % (f.name, c.loc()), c.loc())
+    if n == 0:
+        raise AnalysisBroken('%s: no lookup of an optimised operator found' % rid)
